@@ -72,6 +72,96 @@ func StarPolygon(t *rapid.T, cx, cy, R float64, maxHoles int) (rings [][]P2, hol
 	return
 }
 
+// CombPolygon draws a valid polygon that is generally NOT star-shaped: a band between a lower and an upper chain over
+// common knots x_0 < ... < x_n (upper > lower at every knot, hence everywhere between), i.e. a snake or comb with deep
+// concavities and many edges on one sweep line; optionally rotated (otherwise knots are vertically aligned), then
+// scaled so that every vertex is within R of (cx,cy). (cx,cy) is the centre of the largest disc inscribed in a cell
+// (the rectangle between two knots from the higher lower-end to the lower upper-end, which lies in the band); holes are
+// star-shaped rings inside the discs of other cells, so they are inside the shell and mutually disjoint.
+// Returns rings (shell first, counter-clockwise, unclosed), hole discs and the inscribed radius at (cx,cy).
+func CombPolygon(t *rapid.T, cx, cy, R float64, maxHoles int) (rings [][]P2, holes [][3]float64, rin float64) {
+	n := rapid.IntRange(2, 8).Draw(t, "ncells")
+	xs := make([]float64, n+1)
+	acc := 0.0
+	for i := range xs {
+		xs[i] = acc
+		acc += rapid.Float64Range(1, 1.9).Draw(t, "dx")
+	}
+	mid := make([]float64, n+1)
+	gap := make([]float64, n+1)
+	for i := range mid {
+		gap[i] = rapid.Float64Range(0.15, 1.2).Draw(t, "gap")
+		if i == 1 { // cell 0 is guaranteed to contain a rectangle: |mid1-mid0| <= half the smaller gap
+			g := math.Min(gap[0], gap[1])
+			mid[1] = mid[0] + g*rapid.Float64Range(-0.5, 0.5).Draw(t, "mid1")
+			continue
+		}
+		mid[i] = rapid.Float64Range(-2.5, 2.5).Draw(t, "mid")
+	}
+	type disc struct{ x, y, r float64 }
+	var cells []disc
+	for i := 0; i < n; i++ {
+		lo := math.Max(mid[i]-gap[i], mid[i+1]-gap[i+1])
+		hi := math.Min(mid[i]+gap[i], mid[i+1]+gap[i+1])
+		if hi-lo > 0.05 {
+			cells = append(cells, disc{(xs[i] + xs[i+1]) / 2, (lo + hi) / 2, 0.9 * math.Min((hi-lo)/2, (xs[i+1]-xs[i])/2)})
+		}
+	}
+	main := 0
+	for i, c := range cells {
+		if c.r > cells[main].r {
+			main = i
+		}
+	}
+	var shell []P2
+	for i := 0; i <= n; i++ {
+		shell = append(shell, MkP(xs[i], mid[i]-gap[i]))
+	}
+	for i := n; i >= 0; i-- {
+		shell = append(shell, MkP(xs[i], mid[i]+gap[i]))
+	}
+	// similarity: rotation about the main cell centre, then scale so the farthest vertex is at f*R
+	th := 0.0
+	if rapid.IntRange(0, 2).Draw(t, "rotated") > 0 {
+		th = rapid.Float64Range(0, 2*math.Pi).Draw(t, "theta")
+	}
+	c0 := cells[main]
+	rmax := 0.0
+	for _, p := range shell {
+		rmax = math.Max(rmax, math.Hypot(float64(p[0])-c0.x, float64(p[1])-c0.y))
+	}
+	sc := R * rapid.Float64Range(0.7, 1).Draw(t, "fill") / rmax
+	co, si := math.Cos(th), math.Sin(th)
+	tr := func(x, y float64) (float64, float64) {
+		dx, dy := x-c0.x, y-c0.y
+		return cx + sc*(co*dx-si*dy), cy + sc*(si*dx+co*dy)
+	}
+	for i, p := range shell {
+		x, y := tr(float64(p[0]), float64(p[1]))
+		shell[i] = MkP(x, y)
+	}
+	rings = append(rings, shell)
+	rin = c0.r * sc
+	k := 0
+	if maxHoles > 0 {
+		k = rapid.IntRange(0, maxHoles).Draw(t, "nholes")
+	}
+	for i, c := range cells {
+		if k == 0 {
+			break
+		}
+		if i == main {
+			continue
+		}
+		hx, hy := tr(c.x, c.y)
+		hr := c.r * sc * rapid.Float64Range(0.3, 0.95).Draw(t, "hr")
+		rings = append(rings, StarRing(t, hx, hy, hr, 3, 7, 0.5))
+		holes = append(holes, [3]float64{hx, hy, hr})
+		k--
+	}
+	return
+}
+
 // Respell draws an equivalent spelling of a ring: optional reversal, rotation of the start vertex,
 // and optional repetition of the first vertex at the end.
 func Respell(t *rapid.T, ring []P2) []P2 {
@@ -129,9 +219,17 @@ func GenPolygonal(t *rapid.T, kind string, cx, cy, R float64, snap bool) Placed 
 		var polys [][][]P2
 		for m := 0; m < nm; m++ {
 			mcx := cx + float64(m)*2.5*R
-			rings, holes := StarPolygon(t, mcx, cy, R, 3)
+			var rings [][]P2
+			var holes [][3]float64
+			var rin float64
+			if rapid.IntRange(0, 2).Draw(t, "family") == 0 {
+				rings, holes, rin = CombPolygon(t, mcx, cy, R, 3)
+			} else {
+				rings, holes = StarPolygon(t, mcx, cy, R, 3)
+				rin = Inradius(rings[0], mcx, cy)
+			}
 			if m == 0 {
-				p.Rin = Inradius(rings[0], cx, cy)
+				p.Rin = rin
 				p.Holes = holes
 			}
 			if snap {
